@@ -103,6 +103,9 @@ def _root_spec(full, S):
         spec += [
             ["arc.zip", "zip", {"members": members}],
             ["run.sh", "f", sites.SCRIPT, 0o755],
+            # executable text files without a '#!' line (the kernel refuses them: ENOEXEC), and one with blanks in its name
+            ["plain.exe", "f", "echo plain output\n", 0o755],
+            ["cgi/no shebang", "f", "echo no shebang\n", 0o755],
             ["hello.pyg", "f", PYG, 0o755],
             ["t.html.tal", "f", TAL],
             ["c.txt.gz", "f", sites.gz_text("compressed\n")],
@@ -158,6 +161,10 @@ BASES = ["/", "/gm", "/lk", "/gm", "/lk", "/readme.txt", "/dir", "/dir/file.txt"
 
 
 NOSLASH = ["x/file.txt", "x/readme.txt", "x", "x/new/1.msg", "x/new", "readme.txt", "dir/file.txt", "x/../root/readme.txt", "arc.zip/a.txt"]
+# virtual arguments that would be shell syntax if they ever reached a shell (@S@ = the sandbox directory)
+BASES += [b + sep + arg for b in ("/plain.exe", "/run.sh", "/cgi/no shebang", "/hello.pyg")
+          for sep in ("?", "|") for arg in ("x;cat @S@/secret.txt", "$(cat @S@/secret.txt)", "`cat @S@/secret.txt`", "x && ls @S@", "x|cat @S@/secret.txt",
+                                           "x > @S@/cwd/created-by-shell", "-f @S@/secret.txt")]
 ZIP_BASES = [b for b in BASES if ".zip" in b or ".mbox" in b or "md" in b] * 2
 
 
@@ -388,7 +395,7 @@ def check_case(case, ctx):
             form = case["form"]
             tls = clients.FORMS[form][0]
             fam = clients.FORMS[form][1]
-            sel = case["sel"]
+            sel = case["sel"].replace("@S@", S)
             if fam in ("gopher", "gplus", "gdollar", "gbang"):
                 sent = _pct_layers(sel, case["layers"], case["enc_all"], case["lower_hex"])
                 sent = re.sub(rb"[\t\r\n]", b"_", sent)
